@@ -153,6 +153,31 @@ def asf_inputs(d):
         n += 1
 
 
+def asf_long_names(d):
+    """an Extended Content Description attribute whose name fills the 16-bit length field (with and without the
+    NUL terminator), inserted by byte surgery (object size, header size kept consistent)"""
+    if d[:16] != W.ASF_HDR or len(d) < 30:
+        return
+    size_total = struct.unpack("<Q", d[16:24])[0]
+    p = 30
+    while p + 24 <= min(len(d), size_total):
+        size = struct.unpack("<Q", d[p + 16:p + 24])[0]
+        if size < 24:
+            return
+        if d[p:p + 16] == W.G_ECD and size >= 26:
+            cnt = struct.unpack("<H", d[p + 24:p + 26])[0]
+            for nbytes, term in ((0xFFFE, False), (0xFFFE, True), (0xFFFC, True), (0x8000, False)):
+                name = ("n" * ((nbytes - (2 if term else 0)) // 2)).encode("utf-16-le") + (b"\x00\x00" if term else b"")
+                attr = struct.pack("<H", len(name)) + name + struct.pack("<HH", 0, 4) + "v".encode("utf-16-le") + b"\x00\x00"
+                nd = d[:p + 26] + attr + d[p + 26:]
+                nd = nd[:p + 16] + struct.pack("<Q", size + len(attr)) + nd[p + 24:]
+                nd = nd[:p + 24] + struct.pack("<H", cnt + 1) + nd[p + 26:]
+                nd = nd[:16] + struct.pack("<Q", size_total + len(attr)) + nd[24:]
+                yield "asf-long-attribute-name:%d%s" % (nbytes, "+nul" if term else ""), nd
+            return
+        p += size
+
+
 def ape_inputs(d):
     i = d.rfind(b"APETAGEX")
     seen = 0
@@ -162,6 +187,25 @@ def ape_inputs(d):
                 yield "ape-field@%d+%d=%d" % (i, off, v), put(d, i + off, 4, v, False)
         seen += 1
         i = d.rfind(b"APETAGEX", 0, i)
+
+
+def ape_at_start_inputs(d):
+    """the same tag placed at the START of the file (header first; a layout APEv2 readers accept), whole and
+    header-only, with the header's size/count/flags fields at their extremes"""
+    i = d.rfind(b"APETAGEX")
+    if i < 0:
+        return
+    size = int.from_bytes(d[i + 12:i + 16], "little")
+    flags = int.from_bytes(d[i + 20:i + 24], "little")
+    start = i + 32 - size - (32 if flags & (1 << 31) else 0)
+    if start < 0 or not (flags & (1 << 31)) or d[start:start + 8] != b"APETAGEX":
+        return
+    tag, body = d[start:i + 32], d[:start][:2000]
+    for lab, m in (("whole", tag + body), ("header-only", tag[:32] + body), ("no-footer", tag[:-32] + body)):
+        yield "ape-at-start:" + lab, m
+        for off in (8, 12, 16, 20):
+            for v in (0, 1, 31, 32, 33, len(tag), len(tag) - 32, len(m), len(m) + 1, 0x7FFFFFFF, 0x80000000, 0xFFFFFFFF):
+                yield "ape-at-start:%s field+%d=%d" % (lab, off, v), put(m, off, 4, v, False)
 
 
 def id3_frame_inputs(seed=1):
@@ -208,8 +252,12 @@ def structured(name, d):
     if fam == "mp4": gens.append(mp4_inputs(d))
     if fam in ("aiff", "wave", "dff"): gens.append(chunked_inputs(d, fam))
     if fam == "flac": gens.append(flac_inputs(d))
-    if fam == "asf": gens.append(asf_inputs(d))
-    if fam == "ape" or b"APETAGEX" in d[-400:]: gens.append(ape_inputs(d))
+    if fam == "asf":
+        gens.append(asf_inputs(d))
+        gens.append(asf_long_names(d))
+    if fam == "ape" or b"APETAGEX" in d[-400:]:
+        gens.append(ape_inputs(d))
+        gens.append(ape_at_start_inputs(d))
     for g in gens:
         for lab, m in g:
             if m != d:
